@@ -209,7 +209,7 @@ theorem wakeLoop_wz {swf : State → Nat → Nat → Bool → State} (hn : N3 sw
 
 theorem unregNotify_wz {swf : State → Nat → Nat → Bool → State} {sn : State → Nat → State}
     (hn3 : N3 swf) (hn1 : N1 sn) (hswf : WQ3 swf) (hsn : WQ1 sn) (X : List Nat) {s : State} (h : NInv s)
-    (src name : Nat) (hq : name = 0 ∨ 100 ≤ src) : WZ X s (unregNotify swf sn s src name) := by
+    (src name : Nat) (hq : name = 0 ∨ QSrc src name) : WZ X s (unregNotify swf sn s src name) := by
   unfold unregNotify
   split
   · exact WZ.refl X s
@@ -219,9 +219,11 @@ theorem unregNotify_wz {swf : State → Nat → Nat → Bool → State} {sn : St
       have hname : name = 0 := by
         rcases hq with hq | hq
         · exact hq
-        · apply h.n1 src name hq
-          rw [Tbl.find_eq_getD_of_some hfind]
-          exact h.wfN.find_ne_nil hfind
+        · exfalso
+          have hk := h.n1 src name hq.1 (by rw [Tbl.find_eq_getD_of_some hfind]; exact h.wfN.find_ne_nil hfind)
+          rcases hq.2 with e | e
+          · exact hk.1 e
+          · exact hk.2 e
       subst hname
       simp only [unregisterTargets_eq_purge]
       have h1 : NInv ({ ({ s with waitFor := (Tbl.purge s.alive s.waitFor src 0 list []).1 } : State) with
@@ -271,7 +273,7 @@ structure WQAll (fuel : Nat) : Prop where
   stp : WQ1 (stop fuel)
   cwa : WQ1 (cancelWaitingAll fuel)
   swf : WQ3 (stoppedWaitFor fuel)
-  ur : ∀ X s src name, NInv s → (name = 0 ∨ 100 ≤ src) → WZ X s (unregister fuel s src name)
+  ur : ∀ X s src name, NInv s → (name = 0 ∨ QSrc src name) → WZ X s (unregister fuel s src name)
   ua : WQ1 (unregisterAll fuel)
 
 theorem wqAll_zero : WQAll 0 where
@@ -381,7 +383,7 @@ theorem deleteThread_wz_succ {fuel : Nat} (ih : WQAll fuel) : WQ1 (deleteThread 
       have w3tail := fun (A : List Nat) =>
         ((((cancelEvents_wz A (notifyDelete (stopStep (cancelWaitingAll fuel)
             (s.setTh t fun th => { th with hasVM := false }) t th) t) t).trans
-          (ih.ur A _ t nameDelete h3 (Or.inr ht))).trans (ih.ur A _ t nameRemove h4 (Or.inr ht))).trans
+          (ih.ur A _ t nameDelete h3 (Or.inr ⟨ht, Or.inl rfl⟩))).trans (ih.ur A _ t nameRemove h4 (Or.inr ⟨ht, Or.inr rfl⟩))).trans
           (ih.ua A _ t h5)).trans (ih.cwa A _ t h6)
       -- abbreviations for the intermediate states
       generalize hs1 : stopStep (cancelWaitingAll fuel) (s.setTh t fun th => { th with hasVM := false }) t th = s1 at *
